@@ -67,7 +67,8 @@ def examples_for(m, resolved):
 
 
 def cargo_check(crate, sel, target_dir, examples=()):
-    args = ["cargo", "check", "--offline", "--locked", "-p", crate, "--no-default-features", "--lib", "--message-format=json"]
+    locked = ["--locked"] if os.path.exists(os.path.join(REPO, "Cargo.lock")) else []
+    args = ["cargo", "check", "--offline"] + locked + ["-p", crate, "--no-default-features", "--lib", "--message-format=json"]
     for e in examples:
         args += ["--example", e]
     if sel:
